@@ -17,7 +17,7 @@ DEMO_FILE=$(ls "$SRC"/demo_test.go "$SRC"/demo/main.go 2>/dev/null | head -1)
 [ -n "$DEMO_FILE" ] || { res "no demo file"; exit 0; }
 # demo on the pristine tree
 mkdir -p "$V/$(dirname "$DEMO_PATH")"; cp "$DEMO_FILE" "$V/$DEMO_PATH"
-DEMO_CMD_V=$(echo "$DEMO_CMD" | sed -E "s#/tmp/wt[0-9]*/$ID#$V#g")
+DEMO_CMD_V=$(echo "$DEMO_CMD" | sed -E -e "s#/tmp/wt[0-9]*/$ID#$V#g" -e "s#<repo>#$V#g" -e "s#<worktree>#$V#g")
 ( cd "$V" && timeout 900 bash -c "$DEMO_CMD_V" ) >/tmp/demo_pristine.$$ 2>&1; P=$?
 git -C "$V" apply "$SRC/patch.diff"
 ( cd "$V" && timeout 900 bash -c "$DEMO_CMD_V" ) >/tmp/demo_mut.$$ 2>&1; M=$?
